@@ -12,7 +12,7 @@ import (
 
 // Dense copies of the TLC-emitted factor tables.
 type v3Tables struct {
-	eff  []uint8           // [ver][s][cr][c][ir][i][ar][a][av][ac][pr][ui] -> inner tenth
+	eff  []uint8            // [ver][s][cr][c][ir][i][ar][a][av][ac][pr][ui] -> inner tenth
 	temp [2][101][100]uint8 // [ver][inner][e*20+rl*4+rc] -> tenth
 }
 
@@ -175,7 +175,9 @@ func cmdV3Env(args []string) {
 			v3Assign(em, &v)
 			f := em.Score()
 			t, ex, _ := obsScore(f)
-			if inner >= 0 && inner <= 100 {
+			if flagPid == "C06" {
+				rec.Add(v3EventBody(ver, &v, "E", f, em.Severity().String(), false), "assign eff-domain x temporal")
+			} else if inner >= 0 && inner <= 100 {
 				rec.Add(tempEventBody(ver, inner, &v, f), "assign eff-domain x temporal")
 			}
 			if !ex || t != tab.expectEnv(vi, &v) {
